@@ -121,7 +121,9 @@ def idc_star(
         logger.debug(
             f"[{_number_recursions}]: line 4 IDC* algorithm: for each condition, check if rule 2 of do calculus applies"
         )
-        if cf_rule_2_of_do_calculus_applies(cf_graph, new_outcomes, condition):
+        if cf_rule_2_of_do_calculus_applies(
+            cf_graph, new_outcomes, condition, other_conditions=set(new_conditions) - {condition}
+        ):
             logger.debug(
                 f"\t[{_number_recursions}]: line 4 IDC* algorithm: rule 2 of do calculus applies:\n\t\t{outcomes} "
                 f"""is D-separated from {condition} in G{"'" * (_number_recursions + 1)} ({condition}_bar)"""
@@ -167,7 +169,10 @@ def idc_star(
 
 
 def cf_rule_2_of_do_calculus_applies(
-    cf_graph: NxMixedGraph, outcomes: Iterable[Variable], condition: Variable
+    cf_graph: NxMixedGraph,
+    outcomes: Iterable[Variable],
+    condition: Variable,
+    other_conditions: Iterable[Variable] = (),
 ) -> bool:
     r"""Check if Rule 2 of the Do-Calculus applies to the conditioned variable.
 
@@ -180,6 +185,7 @@ def cf_rule_2_of_do_calculus_applies(
     :param cf_graph: an NxMixedGraph
     :param outcomes: The outcomes to check
     :param condition: The condition to check
+    :param other_conditions: The remaining conditions, which stay observed
     :returns: If rule 2 applies, see below.
 
     If Rule 2 of the do calculus applies to the conditioned variable, then it can be converted to a do variable.
@@ -195,6 +201,8 @@ def cf_rule_2_of_do_calculus_applies(
     """
     #: also called "blocked nodes"
     conditions = {n for n in cf_graph.nodes() if not is_not_self_intervened(n)}
+    # the remaining conditioning events stay conditioned on: Z - {Z} in the criterion below
+    conditions |= set(other_conditions)
     graph_mod = cf_graph.remove_out_edges(condition)
     # the two variables being tested are not part of the conditioning set (a self-intervened
     # outcome or condition would otherwise be deleted from the graph before the path search)
